@@ -68,6 +68,27 @@ func frameRaw(tape uint64, sizes [4]uint64, blocks [4][]byte) []byte {
 	return append(out, body...)
 }
 
+// varintOffsets lists [start, end, kind] of every framing varint of a well-framed blob; kind 1 = a declared section size
+// (tape words, strings, message, tags, values), kind 0 = total size / block size.
+func varintOffsets(b []byte) [][3]int {
+	var out [][3]int
+	pos := 1
+	next := func(kind int) uint64 {
+		v, n := binary.Uvarint(b[pos:])
+		out = append(out, [3]int{pos, pos + n, kind})
+		pos += n
+		return v
+	}
+	next(0) // total
+	next(1) // tape
+	for k := 0; k < 4; k++ {
+		next(1)
+		bs := next(0)
+		pos += int(bs)
+	}
+	return out
+}
+
 func uv2(dst []byte, v uint64) []byte {
 	var tmp [10]byte
 	n := binary.PutUvarint(tmp[:], v)
@@ -110,6 +131,23 @@ func vserbomb(args []string) error {
 				}
 				sizes[sec], blocks[sec] = declared, p
 				cases = append(cases, frameRaw(4, sizes, blocks))
+			}
+		}
+	}
+	// framing varints with absurd values: the size of each of the four blocks (checked against what is left of the input, never
+	// allocated) and the total size in the header: 2^31, 2^32, 2^62, 2^63-1, 2^63, 2^63+1, 2^64-1 (conversions to int wrap)
+	{
+		valid := frameRaw(4, [4]uint64{1, 1, 1, 1}, [4][]byte{good(1), good(1), good(1), good(1)})
+		offs := varintOffsets(valid)
+		for _, vo := range offs {
+			for _, v := range []uint64{1 << 31, 1 << 32, 1 << 62, 1<<63 - 1, 1 << 63, 1<<63 + 1, 1<<64 - 1} {
+				c := append([]byte{}, valid[:vo[0]]...)
+				c = uv2(c, v)
+				c = append(c, valid[vo[1]:]...)
+				if vo[2] == 1 && v > 64<<20 {
+					continue // a declared SECTION size of that magnitude is outside the claim (it would be allocated)
+				}
+				cases = append(cases, c)
 			}
 		}
 	}
